@@ -34,6 +34,7 @@ Explain(r, P, occ, ord, d, obs, exp) ==
   LET extra == obs \ exp
       missing == exp \ obs IN
   IF extra = {} /\ missing = {} THEN "ok"
+  ELSE IF SeveralVars(P, d) THEN "RemovedSymbolKeepsDefinition"
   ELSE IF d \in ReassignedVars(P) THEN "VarReassignmentMovesDefinition"
   ELSE IF (extra \cup missing) \subseteq (DefOps(r) \cup LoopOps(r) \cup FileOps(r)) THEN SpecialName(r, extra \cup missing)
   ELSE IF (\A x \in missing : Ambiguous(P, x, ord)) /\ (\A y \in extra : (y = WholeFile /\ occ.file # r.main) \/ Ambiguous(P, y, ord))
@@ -52,6 +53,8 @@ JudgeOcc(r, P, o) ==
       U == {x.oid : x \in {y \in P.occs : y.node \in {-1, NoNode}}}       \* occurrences the model cannot resolve (untaken code, import quirks): unspecified
       obsUses == {x.oid : x \in {y \in SeqSet(r.obs) : y.def = d /\ ~OccOf(P, y.oid).def}}
       defrow == IF d = NoNode \/ d = -1 \/ o.def = d THEN <<>>      \* -1: unresolvable name in an untaken branch (the build never evaluates it)
+                ELSE IF SeveralVars(P, d)
+                  THEN <<V(r.id, "deviation", "RemovedSymbolKeepsDefinition", "go-to-definition leads to " \o ToString(o.def) \o ", the variable is defined at " \o ToString(d) \o at)>>
                 ELSE IF d \in ReassignedVars(P)
                   THEN <<V(r.id, "deviation", "VarReassignmentMovesDefinition", "go-to-definition leads to " \o ToString(o.def) \o ", the variable is defined at " \o ToString(d) \o at)>>
                 ELSE IF o.def = -1 /\ o.oid \in DefOps(r) \cup FileOps(r)
@@ -75,7 +78,7 @@ Fold(r, P, i, acc) == IF i > Len(r.obs) THEN acc ELSE Fold(r, P, i + 1, acc \o J
 
 Judge(r) ==
   IF ~r.ok THEN <<>>                       \* C16 speaks about error-free projects
-  ELSE LET P == Project(FilesOf(r), r.main) IN
+  ELSE LET P == ProjectO(FilesOf(r), r.main, OrdOf(r)) IN
        IF P.mav THEN <<>>           \* a macro name used as a value somewhere: not an error-free project for the analysis
        ELSE IF ~r.answered
          THEN IF NestedIf0(FilesOf(r)[r.main], FALSE, FilesOf(r))
